@@ -80,7 +80,11 @@ class Ver:
         return name
 
     def refinfo(self, ref, hint):
-        """(kind, dt, long, table, maxlen, struct) of a child's own reference"""
+        """(kind, arity, dt, long, table, maxlen, struct) of a child's own reference"""
+        k = self.refinfo0(ref, hint)
+        return (k[0], str(len(ref)) if is_seq(ref) else '0') + k[1:]
+
+    def refinfo0(self, ref, hint):
         none5 = ('none', 'none', 'none', '(-1)', 'none')
         if ref is None:
             return ('RefKind.none',) + none5
@@ -100,18 +104,18 @@ class Ver:
 
     def row(self, c, parent):
         if not (is_seq(c) and len(c) == 4 and isinstance(c[0], str) and is_seq(c[2]) and len(c[2]) == 2):
-            return '⟨%s,Cls.other,0,(0),RefKind.malformed %d,none,none,none,(-1),none,false⟩' % (
+            return '⟨%s,Cls.other,0,(0),RefKind.malformed %d,0,none,none,none,(-1),none,false⟩' % (
                 q(repr(c)[:40]), len(c) if is_seq(c) else 0)
         name, ref, (mn, mx), cls = c
-        k, dt, lg, tb, ml, st = self.refinfo(ref, name)
+        k, ar, dt, lg, tb, ml, st = self.refinfo(ref, name)
         t = TABLE_OF_CLS.get(cls)
         same = False
         if t is not None:
             tab = getattr(self.lib, t)
             if name in tab and (tab[name] is ref or tab[name] == ref):
                 same = True
-        return '⟨%s,Cls.%s,%d,%s,%s,%s,%s,%s,%s,%s,%s⟩' % (
-            q(name), CLS.get(cls, 'other'), mn, lint(mx), k, dt, lg, tb, ml, st, 'true' if same else 'false')
+        return '⟨%s,Cls.%s,%d,%s,%s,%s,%s,%s,%s,%s,%s,%s⟩' % (
+            q(name), CLS.get(cls, 'other'), mn, lint(mx), k, ar, dt, lg, tb, ml, st, 'true' if same else 'false')
 
     def rows(self, children, parent):
         return '[' + ',\n  '.join(self.row(c, parent) for c in children) + ']'
@@ -123,8 +127,8 @@ class Ver:
         return '⟨%s,Shape.bad %d,[]⟩' % (q(name), len(ref) if is_seq(ref) else 0)
 
     def flat_row(self, name, ref, cls):
-        k, dt, lg, tb, ml, st = self.refinfo(ref, name)
-        return '⟨%s,Cls.%s,0,(0),%s,%s,%s,%s,%s,%s,true⟩' % (q(name), cls, k, dt, lg, tb, ml, st)
+        k, ar, dt, lg, tb, ml, st = self.refinfo(ref, name)
+        return '⟨%s,Cls.%s,0,(0),%s,%s,%s,%s,%s,%s,%s,true⟩' % (q(name), cls, k, ar, dt, lg, tb, ml, st)
 
 
 def base_kind(dt, cls):
